@@ -18,7 +18,7 @@ use serde_json::{json, Value};
 pub struct ArtefactMedium;
 
 pub const ALPHA: usize = 1024;
-pub const BETA: usize = 1 << 20;
+pub const BETA: usize = 8 << 20;
 /// CBOR decoders: serde pre-allocates min(declared, 1 MiB / size_of::<T>()) per sequence and ciborium
 /// recurses at most 256 levels, so a constant of 256 x 1 MiB is reachable from nested heads without
 /// being proportional to any declared length.
@@ -564,8 +564,8 @@ impl ArtefactMedium {
         "00", "fc", "fdfd00", "fdffff", "fe00000100", "fe00000080", "feffffffff", "ff0000000001000000", "ff0000000000000080", "ffffffffffffffffff", // compact-size
         "4cff", "4dffff", "4e00000100", "4e00008000", "4effffffff", "4e00000080", // pushdata
         "5affffffff", "5b000000ffffffffff", "5bffffffffffffffff", "7affffffff", "7bffffffffffffffff", "9affffffff", "9bffffffffffffffff", "baffffffff", "bbffffffffffffffff", "9f", "bf", "5f", // CBOR heads
-        "5a10000000", "7a10000000", "9a10000000", "ba10000000", "9a00400000", "5a00400000", "9b0000000100000000", "991000", "59ffff", // moderately large CBOR counts (2^28, 2^22, 2^32, 4096, 65535)
-        "fe00000010", "fe00004000", // compact-size 2^28, 2^22
+        "5a10000000", "7a10000000", "9a10000000", "ba10000000", "9a02000000", "5a02000000", "9b0000000100000000", "991000", "59ffff", // moderately large CBOR counts (2^28, 2^22, 2^32, 4096, 65535)
+        "fe00000010", "fe00000002", // compact-size 2^28, 2^25
     ];
 }
 
@@ -748,11 +748,11 @@ impl Scenario for ArtefactMedium {
         ScenarioInfo {
             property: "C09",
             name: "artefact-medium",
-            rule: "one case = one valid artefact produced by the real encoder for one of 55 decoder kinds, 0-3 medium faults (truncate at an offset, bit flip, byte set, length-field inflation with 39 compact-size / PUSHDATA / CBOR-head patterns, JSON value substitution, text token substitution/insertion at located length offsets or seeded offsets, junk extension/prepend, splice, duplication, emptying, random replacement, conditional nesting), optional misdelivery to another decoder, then the real decode call under an allocator budget of 1024*len+1MiB in a worker whose death is attributed by breadcrumb; non-trivial = at least one fault or misdelivery fired; distinct = distinct (stored kind, consuming decoder, fault kinds and parameters classes, outcome) fingerprint",
+            rule: "one case = one valid artefact produced by the real encoder for one of 55 decoder kinds, 0-3 medium faults (truncate at an offset, bit flip, byte set, length-field inflation with 39 compact-size / PUSHDATA / CBOR-head patterns, JSON value substitution, text token substitution/insertion at located length offsets or seeded offsets, junk extension/prepend, splice, duplication, emptying, random replacement, conditional nesting), optional misdelivery to another decoder, then the real decode call under an allocator budget of 1024*len+8MiB in a worker whose death is attributed by breadcrumb; non-trivial = at least one fault or misdelivery fired; distinct = distinct (stored kind, consuming decoder, fault kinds and parameters classes, outcome) fingerprint",
             abstract_state: "(consuming decoder, fault-kind set, outcome ok/err)",
             real: &["55 public decoding entry points of bsv (Transaction/TxIn/TxOut wire+hex+CBOR+JSON, Script bytes/hex/asm/chunks, ScriptTemplate, PrivateKey WIF/hex/bytes, PublicKey, ExtendedPrivateKey/ExtendedPublicKey strings, paths, seeds, P2PKHAddress, Signature DER/compact, SighashSignature, ECIESCiphertext+decrypt, AES key/iv/ciphertext, digest-taking ECDSA entry points, serde JSON of TxIn/TxOut/Script/PublicKey/P2PKHAddress, BSM verify)", "the real encoders as producers", "the process heap through a counting allocator that refuses over-budget requests", "process death (SIGABRT/SIGSEGV/SIGALRM) observed by the parent"],
             stub: &["the medium (byte-level fault plan)"],
-            assumptions: &["alpha=1024, beta=1MiB: calibrated as 4x the largest fault-free peak/len ratio observed (wire decode of dense one-byte-opcode scripts ~185x); the fault-free ratio histogram is written to evidence on every run", "text decoders receive String::from_utf8_lossy of the damaged bytes (Rust strings are valid UTF-8 by construction)", "overflow-checks are on, as in the repository's own test profile"],
+            assumptions: &["alpha=1024, beta=8MiB: alpha calibrated as 4x the largest fault-free peak/len ratio observed; beta leaves room for constant-size scratch buffers (wire decode of dense one-byte-opcode scripts ~185x); the fault-free ratio histogram is written to evidence on every run", "text decoders receive String::from_utf8_lossy of the damaged bytes (Rust strings are valid UTF-8 by construction)", "overflow-checks are on, as in the repository's own test profile"],
             required_probes: &["fault:truncate", "fault:inflate", "fault:flip", "fault:json_value", "fault:token", "misdelivered", "decode_ok", "decode_err", "fault_free_decode"],
             quick_runs: 300000,
             thorough_runs: 12000000,
@@ -951,8 +951,8 @@ impl Scenario for ArtefactMedium {
                             }
                             // no single request may be sized by a declared length either: serde's cautious pre-allocation
                             // is capped at 1 MiB per sequence and growth by doubling is bounded by the bytes really present
-                            if largest > ALPHA * input.len() + (2 << 20) {
-                                if ctx.violate("alloc", format!("alloc-single-request@{}", label), format!("{} asked the allocator for {} bytes in one request while decoding a {}-byte input (limit {}*len + 2 MiB)", label, largest, input.len(), ALPHA)) {
+                            if largest > ALPHA * input.len() + BETA {
+                                if ctx.violate("alloc", format!("alloc-single-request@{}", label), format!("{} asked the allocator for {} bytes in one request while decoding a {}-byte input (limit {}*len + 8 MiB)", label, largest, input.len(), ALPHA)) {
                                     return;
                                 }
                             }
